@@ -127,12 +127,12 @@ PROPS = {
     },
     'C04': {
         'contracts': [E + 'eof', E + 'timeout', E + 'errored', E + 'existing_data', E + 'expect_loop', SS + '__init__', SR + '__init__',
-                      SB + 'expect_list', SB + 'expect_loop', SB + 'expect', SB + 'expect_exact', SB + 'read', SB + 'readline',
+                      SB + 'expect_list', SB + 'expect_loop', SB + 'expect', SB + 'expect_exact', SB + 'read', SB + 'readline', SB + '__iter__',
                       ('pexpect.pty_spawn.spawn.__str__', 'ctx:str')] + READS,
         'assumptions': [
             'spawn.read_nonblocking is used through its interface contract (data | EOF | TIMEOUT | other OSError); that a transport reports EOF again without blocking after the first EOF is not under contract here (pty: blocking isalive() inside ptyprocess, see DESIGN.md section 7 #10)',
             'str(spawn) used to build the exception message is proved total (pty spawn.__str__; the other classes inherit object.__str__); str(searcher) and the __str__ of user-supplied log files are assumed total',
-            'expect(), expect_exact(), read(), readline() and readlines() are under contract (the delimiter is the default, EOF); __iter__ (iter(self.readline, '')) delegates to the entry points above and are not separately under contract in this check',
+            'expect(), expect_exact(), read(), readline() and readlines() are under contract (the delimiter is the default, EOF); __iter__ is under contract too: it is iter(self.readline, <empty string of the object\'s own string type>); that iter(f, sentinel) calls f until the sentinel comes back is Python\'s definition, assumed',
         ],
     },
     'C05': {
@@ -186,7 +186,8 @@ PROPS = {
     'C07': {
         'contracts': READS + ['pexpect._async_w_await.PatternWaiter.data_received', 'pexpect._async_w_await.expect_async',
                               ('pexpect.spawnbase.SpawnBase.__init__', 'ctx:ctor-base'), ('pexpect.fdpexpect.fdspawn.__init__', 'ctx:ctor'),
-                              ('pexpect.socket_pexpect.SocketSpawn.__init__', 'ctx:ctor'), ('pexpect.popen_spawn.PopenSpawn.__init__', 'ctx:ctor')],
+                              ('pexpect.socket_pexpect.SocketSpawn.__init__', 'ctx:ctor'), ('pexpect.popen_spawn.PopenSpawn.__init__', 'ctx:ctor'),
+                              ('pexpect.pty_spawn.spawn.__init__', 'ctx:ctor')],
         'assumptions': [
             'codecs incremental decoders are homomorphisms on streams that do not end inside a character: dec(a) ++ dec(b) == dec(a ++ b) (sampled dynamically in the thorough tier); given that, feeding every chunk exactly once, in order, with final=False to the one decoder of the instance delivers the decoding of the whole stream',
             'os.read returns a non-empty chunk of at most the requested size, b"" or raises OSError',
@@ -195,7 +196,7 @@ PROPS = {
     },
     'C13': {
         'contracts': ['pexpect.utils.split_command_line', 'pexpect.utils.is_executable_file', 'pexpect.utils.which', 'pexpect.pty_spawn.spawn._spawn',
-                      ('pexpect.popen_spawn.PopenSpawn.__init__', 'ctx:ctor')],
+                      ('pexpect.popen_spawn.PopenSpawn.__init__', 'ctx:ctor'), ('pexpect.pty_spawn.spawn.__init__', 'ctx:ctor')],
         'extra': 'contracts.extra_c13',
         'technique_note': 'the quote/join round-trip law is a bounded check of the real function (labelled bounded, not counted as proved); everything else is proved',
         'bounds': {'*': {'alphabet': "a '\"\\\\", 'maxlen': 5}},
@@ -238,7 +239,7 @@ PROPS = {
     },
     'C01': {
         'contracts': [E + 'do_search', E + 'existing_data', E + 'new_data', E + 'eof', E + 'timeout', E + 'errored', E + 'expect_loop',
-                      SB + '_set_buffer', SB + 'expect_list', SB + 'expect_loop', SB + 'expect', SB + 'expect_exact', SB + 'read', SB + 'readline', SB + 'readlines'],
+                      SB + '_set_buffer', SB + 'expect_list', SB + 'expect_loop', SB + 'expect', SB + 'expect_exact', SB + 'read', SB + 'readline', SB + 'readlines', SB + '__iter__'],
         'assumptions': [
             'io.BytesIO/StringIO behave as (content, position) with write-at-position, read-to-end, seek, tell, getvalue (differentially tested against CPython in the thorough tier)',
             'str/bytes slicing, concatenation and len follow CPython semantics (integers mathematical)',
